@@ -55,6 +55,14 @@ class GenericGroupRegistry(
         super()._init_dynamic_classes()
         self.Group = create_class_with_registry(self, objects.Group)
 
+    def __deepcopy__(self, memo):
+        new = super().__deepcopy__(memo)
+        # The copied groups are still instances of the class bound to the
+        # source registry: rebind them to the class of the new registry.
+        for group in new._groups.values():
+            group.__class__ = new.Group
+        return new
+
     def _after_init(self) -> None:
         """Invoked at the end of ``__init__``.
 
